@@ -363,6 +363,18 @@ func GenURI(t *rapid.T) string {
 	return sb.String()
 }
 
+// tagSeps are what may stand between the words of a tag. Every format takes the tag as "the rest of the
+// line after the ONE space that delimits it" (docs/eng/providers.md: raw "two fields delimited by a space:
+// ammo size and tag ... Tag is a string"; uri "/buy tag2"; uripost 'bodySize uri [tag]') or as a JSON string
+// (http/json), so whatever follows that first space - runs of several spaces, tabs - is tag text, to be
+// delivered as written. Only the ends of a tag are never blank (the line is trimmed).
+var tagSeps = []string{" ", " ", " ", "  ", "   ", "\t", " \t ", "\t\t"}
+
+// HasBlankRun reports whether the tag holds inner whitespace other than single spaces.
+func HasBlankRun(tag string) bool {
+	return strings.Contains(tag, "  ") || strings.Contains(tag, "\t")
+}
+
 // GenTag draws a tag (possibly empty) whose ends are not blank.
 func GenTag(t *rapid.T, pool []string, allowSpaces bool) string {
 	switch rapid.IntRange(0, 5).Draw(t, "tagKind") {
@@ -375,7 +387,8 @@ func GenTag(t *rapid.T, pool []string, allowSpaces bool) string {
 		return genToken(t, "tag", 1, 6)
 	case 3:
 		if allowSpaces {
-			return genToken(t, "tagA", 1, 4) + " " + genToken(t, "tagB", 1, 4) + rapid.SampledFrom([]string{"", " x", " #1|b"}).Draw(t, "tagC")
+			return genToken(t, "tagA", 1, 4) + rapid.SampledFrom(tagSeps).Draw(t, "tagSep") + genToken(t, "tagB", 1, 4) +
+				rapid.SampledFrom([]string{"", "", " x", " #1|b", "  x", "\ty", " :  z"}).Draw(t, "tagC")
 		}
 		return genToken(t, "tag", 1, 6)
 	case 4:
